@@ -31,3 +31,47 @@ Proof.
   replace (R * (m * S) + s * S) with ((R * m + s) * S) by lia.
   apply Z.mod_mul. lia.
 Qed.
+
+(* ---------- the closed form of a data shard byte / of the shard length ---------- *)
+Lemma shard_byte_correct dat L S buf D i o : sizes_ok L S buf -> 0 <= D -> 0 <= i < 10 ->
+  0 <= o < zlen (data_shard dat L S buf D i) ->
+  znth (data_shard dat L S buf D i) o 0%N = shard_byte dat L S D i o.
+Proof.
+  intros Hok HD Hi Ho. destruct (shards_facts dat L S buf D Hok HD) as [R [s [Hlay EF]]].
+  destruct (sizes_ok_pos _ _ _ Hok) as [HL [HS _]].
+  pose proof (n_large_rows_true L S D R s HL HS HD Hlay) as HR.
+  pose proof (ef_len _ _ _ _ _ _ _ EF i Hi) as Hlen.
+  rewrite znth_data_shards in Hlen by lia. rewrite Hlen in Ho.
+  assert (HR0 : 0 <= R) by apply Hlay. assert (Hs0 : 0 <= s) by apply Hlay.
+  rewrite <- (znth_data_shards dat L S buf D i) by lia.
+  unfold shard_byte. rewrite HR. cbv zeta.
+  destruct (o <? R * L) eqn:E.
+  - assert (Hq : 0 <= Z.quot o L < R).
+    { rewrite Z.quot_div_nonneg by lia. split; [apply Z.div_pos; lia|apply Z.div_lt_upper_bound; lia]. }
+    assert (Hr : 0 <= Z.rem o L < L) by (rewrite Z.rem_mod_nonneg by lia; apply Z.mod_pos_bound; lia).
+    pose proof (Z.quot_rem' o L) as Hqr.
+    replace o with (Z.quot o L * L + Z.rem o L) at 1 by lia.
+    rewrite (ef_large _ _ _ _ _ _ _ EF i _ _ Hi Hq Hr). unfold datz. reflexivity.
+  - set (o' := o - R * L). assert (Ho' : 0 <= o' < s * S) by (unfold o'; lia).
+    assert (Hq : 0 <= Z.quot o' S < s).
+    { rewrite Z.quot_div_nonneg by lia. split; [apply Z.div_pos; lia|apply Z.div_lt_upper_bound; lia]. }
+    assert (Hr : 0 <= Z.rem o' S < S) by (rewrite Z.rem_mod_nonneg by lia; apply Z.mod_pos_bound; lia).
+    pose proof (Z.quot_rem' o' S) as Hqr.
+    replace o with (R * L + Z.quot o' S * S + Z.rem o' S) at 1 by (unfold o' in *; lia).
+    rewrite (ef_small _ _ _ _ _ _ _ EF i _ _ Hi Hq Hr). unfold datz. reflexivity.
+Qed.
+
+Lemma shard_len_correct dat L S buf D i : sizes_ok L S buf -> 0 <= D -> 0 <= i < 10 ->
+  zlen (data_shard dat L S buf D i) = shard_len L S D.
+Proof.
+  intros Hok HD Hi. destruct (shards_facts dat L S buf D Hok HD) as [R [s [Hlay EF]]].
+  destruct (sizes_ok_pos _ _ _ Hok) as [HL [HS _]].
+  pose proof (n_large_rows_true L S D R s HL HS HD Hlay) as HR.
+  pose proof (ef_len _ _ _ _ _ _ _ EF i Hi) as Hlen.
+  rewrite znth_data_shards in Hlen by lia. rewrite Hlen.
+  unfold shard_len. rewrite HR. destruct Hlay as [H1 [H2 [H3 H4]]].
+  destruct (D <=? 0) eqn:E.
+  - destruct (H3 ltac:(lia)) as [-> ->]. lia.
+  - specialize (H4 ltac:(lia)). f_equal. f_equal.
+    apply Z.div_unique with (r := D - R * (L * 10) + S * 10 - 1 - s * (S * 10)); lia.
+Qed.
